@@ -88,7 +88,9 @@ case('eig', ); case('eigh', )   # eigen-decompositions have no exact symbolic se
 # indexing (dispatched through Array.__getitem__, not part of HANDLED_FUNCTIONS)
 case('__getitem__', lambda o: o.a[1], lambda o: o.a[-1], lambda o: o.a[:, 1:], lambda o: o.a[::-1, ::2], lambda o: o.a[..., 0], lambda o: o.a[np.newaxis, :, np.newaxis, 1], lambda o: o.T[1, ..., -1],
      lambda o: o.a[:, [2, 0]], lambda o: o.b[o.i], lambda o: o.a[o.n], lambda o: o.a[:, o.k], lambda o: o.a[1, -2:], lambda o: o.T[:, 0][::-1, 1:3], lambda o: o.a[::-1, 1:][..., np.newaxis, 0],
-     lambda o: o.M[1:, :-1][0], lambda o: o.a[:, -3:3:2], lambda o: o.T[-1, 0, -1])
+     lambda o: o.M[1:, :-1][0], lambda o: o.a[:, -3:3:2], lambda o: o.T[-1, 0, -1],
+     # slice bounds outside the axis are clipped by NumPy; an empty range has length zero
+     lambda o: o.b[-10:], lambda o: o.a[:, :10], lambda o: o.b[2:1], lambda o: o.a[:, -10:2], lambda o: o.b[1:100], lambda o: o.b[10:], lambda o: o.a[:-10], lambda o: o.M[5:, ::-1], lambda o: o.b[-100:100:2])
 case('operators', lambda o: o.a + o.b * o.c, lambda o: -o.a / (o.d * o.d + 1.), lambda o: o.j // o.r, lambda o: o.j % o.r, lambda o: o.a ** 2, lambda o: 2. ** o.n, lambda o: abs(o.j) - o.i, lambda o: (o.a > o.d) & ~o.m, lambda o: (o.a < o.b) | (o.j == 0),
      lambda o: o.a.astype(complex) * 1j if False else o.j.astype(float) / 2)
 # compositions (depth 2)
